@@ -68,7 +68,8 @@ EvCmd ==
   /\ Ev.k = "cmd"
   /\ Ev.c \in DOMAIN S.conns
   /\ LET tm == [t0 |-> Ev.t0, t1 |-> Ev.t1]
-     IN \E S1 \in PurgeFor(S, Ev.c, tm) :
+         Sr == IF "prog" \in DOMAIN Ev THEN RegProg(S, Ev.argv, Ev.prog, Ev.sha) ELSE S
+     IN \E S1 \in PurgeFor(Sr, Ev.c, tm) :
           \E o \in Step(S1, Ev.c, Ev.argv, tm, ObsOf(Ev)) :
             /\ Match(o.r, Ev.r)
             /\ ("sr" \in DOMAIN Ev => ClientGot(Ev.r, Ev.sr))
